@@ -216,19 +216,20 @@ def sanitize_yaml(d: dict, do_keys: bool = True, do_values: bool = False) -> dic
 
 
 def convert_scientific_to_float(value: str) -> float | str:
-    """Convert value to float if it matches scientific notation string.
+    """Convert value to float if the whole string is a number in scientific notation.
 
     Parameters
     ----------
     value : str
-        value to convert from string to float if it matches scientific notation
+        value to convert from string to float if it matches scientific notation in full
 
     Returns
     -------
     float | string
-        return float if value was scientific notation string, else turn original value
+        return float if value was scientific notation string, else return original value
+        (also when only a prefix looks like a number, e.g. ``1e3x``)
     """
-    return float(value) if rp.number_scientific.match(value) else value
+    return float(value) if rp.number_scientific.fullmatch(value) else value
 
 
 def sanitize_parameter_list(parameter_list: list[str | float]) -> list[str | float]:
